@@ -73,6 +73,7 @@ theorem failure_never_verifies (c : Nat) (hist : List (Store × In)) (db : Store
           · simp
           · simp
           · simp
+          · intro _; right; exact ⟨4, 4, rfl⟩
           · split
             · simp
             · intro _; right; exact ⟨4, 4, rfl⟩
@@ -295,6 +296,28 @@ theorem accessory_itself_is_no_controller (c : Nat) (db : Store) (st : St) (k : 
       · simp at hopen
 
 -- every exchange has its own accessory key ------------------------------------------------------------------------------
+
+/-- A stored long-term key of a wrong size (anything but 32 bytes; `/pairings` add stores what it is given): whatever
+    the finish carries — any signature, of any length —, it is answered with an error and verifies nothing. (A signature
+    check that panics on such a key must not turn into "verified" either: seeded change C03-r5m1 recovered the panic in the
+    handler and returned the half-built success response.) -/
+theorem wrong_size_stored_key_never_verifies (c : Nat) (db : Store) (st : St) (k : KRef) (no it : Bool) (name : Nat)
+    (sig : SigRef) (hbad : db name = .badKey) :
+    (step true c db st (.v3 (.sealed k no it (.tlv name sig)))).1.installed = st.installed ∧
+    (step true c db st (.v3 (.sealed k no it (.tlv name sig)))).2 ≠ .tlv 4 none false false := by
+  simp only [step, stepR]
+  split
+  · simp
+  · simp only [openSealed]
+    split
+    · simp
+    · simp
+    · rename_i n s hopen
+      split at hopen
+      · simp at hopen
+        obtain ⟨rfl, rfl⟩ := hopen
+        simp [hbad]
+      · simp at hopen
 
 /-- Every accepted start request draws a new ephemeral key of the accessory … -/
 theorem new_exchange_new_accessory_key (c e : Nat) (db : Store) (st : St) (hw : st.step = .waiting) :
